@@ -10,6 +10,7 @@ ALL = ["C%02d" % i for i in range(1, 37)]
 
 ENGINES = [
     {"name": "E1-finite-family", "path": "vmc/crates/vmc/src/checks/", "kind_free_text": "exhaustive enumeration of a finite, size-bounded generated family through the real crates (one file per property)"},
+    {"name": "E2-lockstep-product", "path": "vmc/crates/vmc/src/checks/c01.rs", "kind_free_text": "lock-step explicit-state BFS over the product of N machines (real simulator engines, reference SV interpreter, netlist evaluator) over all input letters with path re-execution; all short sequences without dedup"},
     {"name": "E3-history-bfs", "path": "vmc/crates/vmc/src/checks/c29.rs, c04.rs", "kind_free_text": "explicit-state BFS over operation histories on the real implementation (library or CLI), state dedup by canonical on-disk snapshot, reference model / fresh-cache twin as oracle"},
     {"name": "E4-crash-damage", "path": "vmc/crates/vmc/src/checks/c05.rs", "kind_free_text": "every mutating system call of the real binary (strace) x SIGKILL before it, every byte/truncation/deletion of every .build file; recovery compared with a clean build"},
 ]
@@ -20,6 +21,11 @@ CHECKS = {}
 def add(pid, level, technique, text, note, engine="E1-finite-family", thorough=True, replay=True):
     CHECKS[pid] = dict(level=level, technique=technique, text=text, note=note, engine=engine, thorough=thorough, replay=replay)
 
+add("C01", "model_checking",
+    "lock-step explicit-state BFS over the full reachable product state space of (reference SV interpreter on the emitted text, real veryl simulator) for every member of a finite design family x 8 clock/reset configurations; plus all input sequences of length <= L without state merging",
+    "Every member of a generated design family (all binary/unary operators x width pairs x signedness, context-width nests, selects, casts, if/case/switch/for, registers/FSMs/arrays/gated clocks, explicit clock/reset port types, functions, structs, generate, instances, interfaces; 68 designs quick / 214 thorough) is analysed and emitted by the real analyzer/emitter under each of the 8 clock_type x reset_type settings, and the emitted text is executed by an independent SystemVerilog interpreter (R2) in lock-step with the real veryl_simulator (Config derived as cmd_test.rs does): BFS over all input letters (incl. a re-reset letter) with state key = all variables of both sides + last letter, outputs compared before and after every active edge, nothing may change on the inactive edge. A CLI leg runs generated native testbenches through the real `veryl test` under each [build] setting and compares the printed trace with R2's trace of the SV the same run emitted.",
+    "Trusted base: R2 (vmc/crates/refmodels/src/svref, ~6100 lines, no code shared with veryl; IEEE 1800 expression semantics from R1 bits) stands in for a standard SystemVerilog simulator, which the sandbox does not have. 2-state stimulus; x/z bits on the SV side are masked and counted. Data inputs <= 4 bits per design. The veryl side is the Cranelift JIT (engine agreement is C02).",
+    engine="E2-lockstep-product")
 add("C04", "model_checking",
     "explicit-state BFS over edit/command histories of the real veryl CLI with a fresh-cache twin as oracle (bounded rounds, state dedup, exhaustive within bound)",
     "Rounds of (<= k edits on distinct files from an alphabet of set-variant/old-mtime-set/touch/remove/rename/Veryl.toml flips/output deletion, then one of build, check, build --check, test, clean) are explored breadth-first from the built base project on the real `veryl` binary; every command transition is executed twice from the same snapshot - with the existing fragment cache and on a twin whose .build/cache was removed - and exit status, diagnostic blocks (multiset) and every output file are compared. Successor states are deduplicated on a canonical key that abstracts absolute time stamps to the order relations veryl evaluates. quick: 2 rounds over 3 files; thorough: 3 rounds over 5 files incl. tests/examples.",
